@@ -556,4 +556,32 @@ void Cello_Exit(void) {
   del_raw(current(GC));
 }
 
+#ifdef CELLO_VERIF
+
+void Cello_Verif_GC_Info(var self, size_t* nslots, size_t* nitems,
+  size_t* mitems, uintptr_t* minptr, uintptr_t* maxptr, bool* running,
+  size_t* freenum) {
+  struct GC* gc = self;
+  if (nslots)  { *nslots  = gc->nslots; }
+  if (nitems)  { *nitems  = gc->nitems; }
+  if (mitems)  { *mitems  = gc->mitems; }
+  if (minptr)  { *minptr  = gc->minptr; }
+  if (maxptr)  { *maxptr  = gc->maxptr; }
+  if (running) { *running = gc->running; }
+  if (freenum) { *freenum = gc->freenum; }
+}
+
+bool Cello_Verif_GC_Slot(var self, size_t i, var* ptr, uint64_t* hash,
+  bool* root, bool* marked) {
+  struct GC* gc = self;
+  if (i >= gc->nslots or gc->entries[i].hash is 0) { return false; }
+  if (ptr)    { *ptr    = gc->entries[i].ptr; }
+  if (hash)   { *hash   = gc->entries[i].hash; }
+  if (root)   { *root   = gc->entries[i].root; }
+  if (marked) { *marked = gc->entries[i].marked; }
+  return true;
+}
+
+#endif
+
 #endif
